@@ -71,10 +71,13 @@ def updL (f : Nat → List Nat) (i : Nat) (v : List Nat) : Nat → List Nat := f
 @[simp] theorem upd_other (f : Nat → Req) (i j : Nat) (v : Req) (h : j ≠ i) : upd f i v j = f j := by simp [upd, h]
 
 /-- `req.next.prev = req` for the newest request already in the table, if any -/
-def linkPrev (f : Nat → Req) (hd : Option Nat) (r : Nat) : Nat → Req :=
+def linkPrev (f : Nat → Req) (hd : Option Nat) (r : Nat) : Nat → Req := fun j =>
+  -- written point-wise: one look-up in `f` per access (as a partial application of a definition
+  -- that builds the record first, the compiled code looked `f` up twice per layer, and the cost
+  -- of reading a request doubled with every request received under a tag still in the table)
   match hd with
-  | some h => upd f h { f h with prev := some r }
-  | none => f
+  | some h => if j = h then { f h with prev := some r } else f j
+  | none => f j
 
 /-- `srv.flush`'s lookup: the newest request in the table under the old tag — unless that is the
     Tflush itself (a Tflush naming its own tag: whatever it could have flushed ran before it) -/
